@@ -215,6 +215,21 @@ class Exporter {
     }
     std::string typeStr(QualType T) { return T.isNull() ? "" : T.getAsString(PP); }
 
+    // explicit template arguments of an overloaded name: doOperation<BigIntOperation::And>(x)
+    template <typename JW>
+    void explicitTemplateArgs(JW &j, const OverloadExpr *OE) {
+        if (!OE->hasExplicitTemplateArgs())
+            return;
+        std::vector<std::string> a;
+        for (const TemplateArgumentLoc &L : OE->template_arguments()) {
+            std::string              s;
+            llvm::raw_string_ostream os(s);
+            L.getArgument().print(PP, os, true);
+            a.push_back("\"" + jesc(os.str()) + "\"");
+        }
+        j.raw("targs", jlist(a));
+    }
+
     const char *typeKind(QualType T) {
         if (T.isNull())
             return "none";
@@ -448,6 +463,7 @@ class Exporter {
             for (auto *D : UL->decls())
                 c.push_back("\"" + jesc(qname(D)) + "\"");
             j.raw("cands", jlist(c));
+            explicitTemplateArgs(j, UL);
         } else if (auto *UM = dyn_cast<UnresolvedMemberExpr>(S)) {
             j.str("n", UM->getMemberName().getAsString());
             if (NestedNameSpecifier *Q = UM->getQualifier()) {
@@ -462,6 +478,7 @@ class Exporter {
             for (auto *D : UM->decls())
                 c.push_back("\"" + jesc(qname(D)) + "\"");
             j.raw("cands", jlist(c));
+            explicitTemplateArgs(j, UM);
             defaultKids = false;
             if (!UM->isImplicitAccess())
                 kids.push_back(UM->getBase());
